@@ -161,6 +161,9 @@ type axisKey struct {
 }
 
 type axisState struct {
+	seen    bool
+	lastRaw int32
+	lastMap int
 	last    *big.Rat
 	dir     int   // key emulation: 0 off, +1, -1
 	pair    *Pair // what the sounding direction was started with (nil when that direction is silent)
